@@ -19,7 +19,7 @@ struct C04 : Scenario {
     }
     const char* measure() const override { return "distinct (mode, stencil, interpolation, grid bucket, e1 bucket, renorm mode) keys"; }
     std::vector<std::string> assumptions() const override {
-        return {"per-step decrement e1 within [2e-3, min(0.25 cell^2, 0.03)] (explicit scheme stable, run length 20/e1 steps affordable)",
+        return {"per-step decrement e1 within [2e-3, min(0.48 cell^2, 0.03)] (explicit scheme stable below cell^2/2; run length 20/e1 steps)",
                 "closeness to 1 uses the discretisation model tau = 0.006 + c_d*cell^2 (c_3=0.45, c_4=0.15; calibrated, >=1.5x above the worst observed); "
                 "for linear interpolation the scheme's own diffusion inflates the equilibrium and only the bound sigma^2-1 <= 0.6 cell^2/e1 is applied"};
     }
@@ -42,7 +42,11 @@ struct C04 : Scenario {
         c.outstep = c.steps; c.saveps = 0;
         c.padding = 2;
         double delta = c.pssize / (c.grid - 1);
-        double e1 = r.loguniform(3e-3, std::min(0.2 * delta * delta, 0.02));
+        // decrement as a fraction of the explicit scheme's stability limit e1 = cell^2/2: 40 % of the runs in the upper part
+        // of the stable range (fraction 0.2-0.48 of cell^2), bounded to [2e-3, 0.03] for run time
+        double frac = r.chance(0.4) ? r.uniform(0.2, 0.48) : r.loguniform(0.02, 0.2);
+        if (frac * delta * delta < 2e-3 && r.chance(0.7)) { c.grid = r.range(36, 52); delta = c.pssize / (c.grid - 1); }
+        double e1 = std::min(std::max(frac * delta * delta, 2e-3), std::min(0.48 * delta * delta, 0.03));
         if (r.chance(0.25)) { c.steps_per_rev = 0; }
         Derived d0 = derive(c);
         c.tdamp = 2.0 / (d0.fs * e1 * d0.steps);
